@@ -1,23 +1,2232 @@
+// vskel: translator for property C10 (DESIGN.md 4.3).  A go/ast + go/types pass over
+// /repo's packages kafka, protocol and compress/... (loaded WITHOUT the verif build tag:
+// the production code is analysed, test hooks are not) computing a must-hold lockset at
+// every statement and emitting coq/Gen/Skeleton.v.
+//
+//	vskel -repo /repo -out Skeleton.v -json counts.json
+//	vskel -selftest            (embedded snippets with known answers)
+//
+// What it tracks: see the comment block written at the top of the generated file
+// (func header()).
 package main
 
 import (
+	"encoding/json"
+	"flag"
 	"fmt"
+	"go/ast"
+	"go/token"
+	"go/types"
 	"os"
+	"path/filepath"
+	"sort"
+	"strings"
 
 	"golang.org/x/tools/go/packages"
 )
 
-func main() {
-	cfg := &packages.Config{
-		Mode:       packages.NeedName | packages.NeedFiles | packages.NeedSyntax | packages.NeedTypes | packages.NeedTypesInfo | packages.NeedImports | packages.NeedDeps,
-		Dir:        os.Args[1],
-		BuildFlags: []string{"-tags=verif"},
+// ----------------------------------------------------------------------------- locksets
+
+// rel is a lockset relative to the (yet unknown) entry lockset E of the enclosing
+// function: held = (killAll ? {} : E - kill) + gen.
+type rel struct {
+	bottom  bool // unreachable
+	killAll bool
+	gen     map[string]bool
+	kill    map[string]bool
+}
+
+func newRel() *rel { return &rel{gen: map[string]bool{}, kill: map[string]bool{}} }
+func bottom() *rel { r := newRel(); r.bottom = true; return r }
+
+func (r *rel) clone() *rel {
+	c := &rel{bottom: r.bottom, killAll: r.killAll, gen: map[string]bool{}, kill: map[string]bool{}}
+	for k := range r.gen {
+		c.gen[k] = true
 	}
-	pkgs, err := packages.Load(cfg, ".", "./protocol", "./compress/...")
+	for k := range r.kill {
+		c.kill[k] = true
+	}
+	return c
+}
+
+func (r *rel) lock(k string)   { r.gen[k] = true; delete(r.kill, k) }
+func (r *rel) unlock(k string) { delete(r.gen, k); r.kill[k] = true }
+func (r *rel) unlockUnknown()  { r.gen = map[string]bool{}; r.killAll = true }
+
+func meet(a, b *rel) *rel {
+	if a.bottom {
+		return b.clone()
+	}
+	if b.bottom {
+		return a.clone()
+	}
+	c := newRel()
+	c.killAll = a.killAll || b.killAll
+	for k := range a.gen {
+		if b.gen[k] {
+			c.gen[k] = true
+		}
+	}
+	for k := range a.kill {
+		c.kill[k] = true
+	}
+	for k := range b.kill {
+		c.kill[k] = true
+	}
+	// a lock generated on one side only is not must-held unless inherited and unkilled
+	// on the other; "kill" must not hide it on the side where it is generated: it is
+	// dropped from gen, and stays governed by E - kill, which is exact when it was
+	// never killed.
+	return c
+}
+
+func (r *rel) equal(o *rel) bool {
+	if r.bottom != o.bottom || r.killAll != o.killAll || len(r.gen) != len(o.gen) || len(r.kill) != len(o.kill) {
+		return false
+	}
+	for k := range r.gen {
+		if !o.gen[k] {
+			return false
+		}
+	}
+	for k := range r.kill {
+		if !o.kill[k] {
+			return false
+		}
+	}
+	return true
+}
+
+type lockset map[string]bool // nil = TOP (all locks)
+
+func (r *rel) apply(e lockset, universe []string) lockset {
+	out := lockset{}
+	if !r.killAll {
+		if e == nil {
+			for _, k := range universe {
+				if !r.kill[k] {
+					out[k] = true
+				}
+			}
+		} else {
+			for k := range e {
+				if !r.kill[k] {
+					out[k] = true
+				}
+			}
+		}
+	}
+	for k := range r.gen {
+		out[k] = true
+	}
+	return out
+}
+
+func lsMeet(a, b lockset) lockset {
+	if a == nil {
+		return b
+	}
+	if b == nil {
+		return a
+	}
+	c := lockset{}
+	for k := range a {
+		if b[k] {
+			c[k] = true
+		}
+	}
+	return c
+}
+
+func lsEq(a, b lockset) bool {
+	if (a == nil) != (b == nil) || len(a) != len(b) {
+		return false
+	}
+	for k := range a {
+		if !b[k] {
+			return false
+		}
+	}
+	return true
+}
+
+// ----------------------------------------------------------------------------- program model
+
+type node struct {
+	name     string
+	decl     *ast.FuncDecl
+	lit      *ast.FuncLit
+	pkg      *packages.Package
+	forced   bool    // entry lockset forced empty (exported, go target, escapes as a value)
+	why      string  // why forced
+	param    *pparam // literal bound to a parameter of an analysed function
+	sites    []site  // static call sites
+	entry    lockset // fixpoint result
+	nlits    int
+	parent   *node
+	analysed bool
+}
+
+type site struct {
+	from *node
+	st   *rel
+}
+
+// pparam: a func-typed parameter of an analysed function
+type pparam struct {
+	owner    *node
+	index    int
+	forced   bool
+	sites    []site    // where the parameter is called
+	forwards []*pparam // passed on as an argument to these
+	entry    lockset
+}
+
+type rawFact struct {
+	typ, field, kind string
+	n                *node
+	st               *rel
+	fresh            bool
+	pos              token.Pos
+}
+
+type chanFact struct {
+	typ, field, kind, fn, pos string
+}
+type goFact struct{ spawner, body, pos string }
+type unkFact struct{ fn, what, text string }
+
+type analysis struct {
+	fset      *token.FileSet
+	pkgs      []*packages.Package
+	pkgOf     map[*types.Package]*packages.Package
+	interest  map[*types.TypeName]string // named types of interest -> display name
+	allStruct bool                       // selftest: every struct type is of interest
+	nodes     []*node
+	byFunc    map[*types.Func]*node
+	byLit     map[*ast.FuncLit]*node
+	params    map[*types.Var]*pparam
+	litVar    map[*types.Var]*node // local variable bound to a function literal
+	named     []*types.Named       // all named types of the analysed packages
+	facts     map[string]*rawFact  // keyed by ast position + kind (last fixpoint pass wins)
+	chans     map[string]chanFact
+	gos       map[string]goFact
+	unks      map[string]unkFact
+	globalsW  map[*types.Var]bool // package-level variables written outside init
+	universe  map[string]bool
+	// per function-body state
+	cur      *node
+	st       *rel
+	frames   []*frame
+	deferred map[string]bool
+	fresh    map[*types.Var]token.Pos // fresh local -> escape position
+	rootDecl *node
+}
+
+type frame struct {
+	label     string
+	isLoop    bool
+	breaks    []*rel
+	continues []*rel
+}
+
+func (a *analysis) posStr(p token.Pos) string {
+	pp := a.fset.Position(p)
+	return fmt.Sprintf("%s:%d", filepath.Base(pp.Filename), pp.Line)
+}
+
+func (a *analysis) info() *types.Info { return a.cur.pkg.TypesInfo }
+
+func deref(t types.Type) types.Type {
+	if p, ok := t.Underlying().(*types.Pointer); ok {
+		return p.Elem()
+	}
+	return t
+}
+
+func namedOf(t types.Type) *types.Named {
+	t = deref(t)
+	if al, ok := t.(*types.Alias); ok {
+		t = types.Unalias(al)
+	}
+	n, _ := t.(*types.Named)
+	return n
+}
+
+func isPointer(t types.Type) bool {
+	_, ok := t.Underlying().(*types.Pointer)
+	return ok
+}
+
+// syncKind: "mutex", "rwmutex", "sync" (other sync / sync/atomic types) or "".
+func syncKind(t types.Type) string {
+	n := namedOf(t)
+	if n == nil || n.Obj().Pkg() == nil {
+		return ""
+	}
+	switch n.Obj().Pkg().Path() {
+	case "sync":
+		switch n.Obj().Name() {
+		case "Mutex":
+			return "mutex"
+		case "RWMutex":
+			return "rwmutex"
+		}
+		return "sync"
+	case "sync/atomic":
+		return "sync"
+	}
+	return ""
+}
+
+func (a *analysis) typeName(n *types.Named) (string, bool) {
+	if n == nil {
+		return "", false
+	}
+	if s, ok := a.interest[n.Obj()]; ok {
+		return s, true
+	}
+	if a.allStruct {
+		if _, ok := n.Underlying().(*types.Struct); ok && a.pkgOf[n.Obj().Pkg()] != nil {
+			return n.Obj().Name(), true
+		}
+	}
+	return "", false
+}
+
+func (a *analysis) displayName(n *types.Named) string {
+	if s, ok := a.typeName(n); ok {
+		return s
+	}
+	p := n.Obj().Pkg()
+	if p == nil {
+		return n.Obj().Name()
+	}
+	if a.pkgOf[p] != nil && a.pkgs[0].Types == p {
+		return n.Obj().Name()
+	}
+	return p.Name() + "." + n.Obj().Name()
+}
+
+// ----------------------------------------------------------------------------- recording
+
+func (a *analysis) record(typ, field, kind string, pos token.Pos, fresh bool) {
+	if a.st.bottom {
+		return
+	}
+	key := fmt.Sprintf("%d/%s/%s/%s", pos, typ, field, kind)
+	a.facts[key] = &rawFact{typ: typ, field: field, kind: kind, n: a.cur, st: a.st.clone(), fresh: fresh, pos: pos}
+}
+
+func (a *analysis) unknown(what string, e ast.Node) {
+	text := a.nodeText(e)
+	u := unkFact{a.cur.name, what, text}
+	a.unks[u.fn+"|"+u.what+"|"+u.text] = u
+}
+
+func (a *analysis) nodeText(e ast.Node) string {
+	switch x := e.(type) {
+	case *ast.Ident:
+		return x.Name
+	case *ast.SelectorExpr:
+		return a.nodeText(x.X) + "." + x.Sel.Name
+	case *ast.StarExpr:
+		return "*" + a.nodeText(x.X)
+	case *ast.UnaryExpr:
+		return x.Op.String() + a.nodeText(x.X)
+	case *ast.CallExpr:
+		return a.nodeText(x.Fun) + "()"
+	case *ast.ParenExpr:
+		return "(" + a.nodeText(x.X) + ")"
+	case *ast.IndexExpr:
+		return a.nodeText(x.X) + "[]"
+	case *ast.FuncLit:
+		return "func-literal"
+	}
+	return fmt.Sprintf("%T", e)
+}
+
+// ----------------------------------------------------------------------------- expressions
+
+type ctx int
+
+const (
+	cRead ctx = iota
+	cWrite
+	cAtomic   // argument of sync/atomic function or method of a sync typed field
+	cAddrArg  // &x.f as a direct call argument, pointer-receiver call on a foreign struct field
+	cAddrElse // &x.f anywhere else
+	cPath     // struct-valued prefix of a longer selector: no access of its own
+	cLockRecv // receiver of a Lock/Unlock call
+)
+
+func kindOf(c ctx) string {
+	switch c {
+	case cRead:
+		return "KRead"
+	case cWrite:
+		return "KWrite"
+	case cAtomic:
+		return "KAtomic"
+	case cAddrArg:
+		return "KAddrArg"
+	}
+	return "KUnknown"
+}
+
+// fieldOwner resolves a field selection to (owner named type, field var) following
+// embedded-field promotion.
+func fieldOwner(sel *types.Selection) (*types.Named, *types.Var) {
+	t := sel.Recv()
+	var owner *types.Named
+	var fv *types.Var
+	for _, idx := range sel.Index() {
+		owner = namedOf(t)
+		st, ok := deref(t).Underlying().(*types.Struct)
+		if !ok {
+			return nil, nil
+		}
+		fv = st.Field(idx)
+		t = fv.Type()
+	}
+	return owner, fv
+}
+
+// rootFresh: is the selector chain rooted (through struct-valued fields only) at a
+// fresh local variable that has not escaped before pos?
+func (a *analysis) rootFresh(e ast.Expr, pos token.Pos) bool {
+	for {
+		switch x := e.(type) {
+		case *ast.ParenExpr:
+			e = x.X
+			continue
+		case *ast.SelectorExpr:
+			sel := a.info().Selections[x]
+			if sel == nil || sel.Kind() != types.FieldVal {
+				return false
+			}
+			// the selection x.X.f: fine when x.X is the fresh pointer/struct itself or a
+			// struct-valued field path from it
+			if _, isId := x.X.(*ast.Ident); !isId && isPointer(a.info().TypeOf(x.X)) {
+				return false
+			}
+			e = x.X
+			continue
+		case *ast.Ident:
+			v, ok := a.info().Uses[x].(*types.Var)
+			if !ok {
+				return false
+			}
+			esc, isFresh := a.fresh[v]
+			return isFresh && pos < esc
+		}
+		return false
+	}
+}
+
+func (a *analysis) expr(e ast.Expr, c ctx) {
+	if e == nil {
+		return
+	}
+	switch x := e.(type) {
+	case *ast.ParenExpr:
+		a.expr(x.X, c)
+	case *ast.Ident:
+		a.ident(x, c)
+	case *ast.SelectorExpr:
+		a.selector(x, c)
+	case *ast.StarExpr:
+		a.expr(x.X, cRead)
+	case *ast.UnaryExpr:
+		switch x.Op {
+		case token.AND:
+			if _, ok := x.X.(*ast.CompositeLit); ok {
+				a.expr(x.X, cRead)
+			} else if c == cAddrArg || c == cAtomic {
+				a.expr(x.X, c)
+			} else {
+				a.expr(x.X, cAddrElse)
+			}
+		case token.ARROW:
+			a.chanOp(x.X, "CRecv", x.Pos())
+			a.expr(x.X, cRead)
+		default:
+			a.expr(x.X, cRead)
+		}
+	case *ast.BinaryExpr:
+		a.expr(x.X, cRead)
+		a.expr(x.Y, cRead)
+	case *ast.IndexExpr:
+		// generic instantiation f[T] has a type operand
+		if tv, ok := a.info().Types[x.Index]; ok && tv.IsType() {
+			a.expr(x.X, c)
+			return
+		}
+		xt := a.info().TypeOf(x.X)
+		if c == cPath {
+			c = cRead
+		}
+		if xt != nil {
+			if _, isPtr := xt.Underlying().(*types.Pointer); isPtr {
+				a.expr(x.X, cRead)
+			} else {
+				a.expr(x.X, c) // map / slice / array element: attributed to the field holding it
+			}
+		} else {
+			a.expr(x.X, c)
+		}
+		a.expr(x.Index, cRead)
+	case *ast.IndexListExpr:
+		a.expr(x.X, c)
+	case *ast.SliceExpr:
+		a.expr(x.X, cRead)
+		a.expr(x.Low, cRead)
+		a.expr(x.High, cRead)
+		a.expr(x.Max, cRead)
+	case *ast.TypeAssertExpr:
+		a.expr(x.X, cRead)
+	case *ast.KeyValueExpr:
+		a.expr(x.Key, cRead)
+		a.expr(x.Value, cRead)
+	case *ast.CompositeLit:
+		t := a.info().TypeOf(x)
+		_, isStruct := deref(t).Underlying().(*types.Struct)
+		for _, el := range x.Elts {
+			if kv, ok := el.(*ast.KeyValueExpr); ok {
+				if !isStruct {
+					a.expr(kv.Key, cRead)
+				}
+				a.argOrExpr(kv.Value)
+			} else {
+				a.argOrExpr(el)
+			}
+		}
+	case *ast.CallExpr:
+		a.call(x, "call")
+	case *ast.FuncLit:
+		// a literal in a position we do not understand: it escapes
+		n := a.litNode(x)
+		a.force(n, "literal used as a value")
+		a.analyseLit(n)
+	case *ast.BasicLit, *ast.ArrayType, *ast.MapType, *ast.ChanType, *ast.FuncType, *ast.StructType, *ast.InterfaceType, *ast.Ellipsis:
+	default:
+		a.unknown("expression", e)
+	}
+}
+
+// argOrExpr: a value stored somewhere (composite literal element, assignment RHS):
+// function literals and function references escape.
+func (a *analysis) argOrExpr(e ast.Expr) { a.expr(e, cRead) }
+
+func (a *analysis) ident(x *ast.Ident, c ctx) {
+	obj := a.info().Uses[x]
+	if obj == nil {
+		obj = a.info().Defs[x]
+	}
+	switch o := obj.(type) {
+	case *types.Var:
+		if pp := a.params[o]; pp != nil {
+			// a func-typed parameter used other than by calling/forwarding it
+			pp.forced = true
+		}
+		if n := a.litVar[o]; n != nil {
+			a.force(n, "literal variable used as a value")
+		}
+		if !o.IsField() && o.Parent() != nil && o.Pkg() != nil && o.Parent() == o.Pkg().Scope() && a.pkgOf[o.Pkg()] != nil {
+			a.global(o, c, x.Pos())
+		}
+	case *types.Func:
+		if n := a.byFunc[o]; n != nil {
+			a.force(n, "function used as a value")
+		}
+	}
+}
+
+func (a *analysis) global(o *types.Var, c ctx, pos token.Pos) {
+	if !a.globalsW[o] {
+		return // never written after package initialisation: immutable
+	}
+	if k := syncKind(o.Type()); k != "" && (c == cLockRecv || c == cAtomic || c == cPath) {
+		if k == "sync" {
+			a.record("$"+o.Pkg().Name(), o.Name(), "KAtomic", pos, false)
+		}
+		return
+	}
+	if c == cPath || c == cLockRecv {
+		return
+	}
+	a.record("$"+o.Pkg().Name(), o.Name(), kindOf(c), pos, false)
+}
+
+func (a *analysis) selector(x *ast.SelectorExpr, c ctx) {
+	sel := a.info().Selections[x]
+	if sel == nil {
+		// qualified identifier pkg.Name
+		a.ident(x.Sel, c)
+		return
+	}
+	switch sel.Kind() {
+	case types.FieldVal:
+		owner, fv := fieldOwner(sel)
+		tname, ok := a.typeName(owner)
+		ft := fv.Type()
+		_, ftIsStruct := ft.Underlying().(*types.Struct)
+		sk := syncKind(ft)
+		if isPointer(ft) {
+			sk = "" // a pointer to a sync value: the field itself is an ordinary location
+		}
+		recordHere := ok
+		if ok {
+			switch {
+			case c == cPath && ftIsStruct:
+				recordHere = false // prefix of a longer path into an interest or sync struct
+			case c == cLockRecv && !isPointer(ft):
+				recordHere = false
+			}
+		}
+		if recordHere {
+			kc := c
+			if kc == cPath || kc == cLockRecv {
+				kc = cRead
+			}
+			if sk != "" && (c == cAtomic || c == cPath) {
+				kc = cAtomic
+			}
+			a.record(tname, fv.Name(), kindOf(kc), x.Sel.Pos(), a.rootFresh(x, x.Pos()))
+		}
+		// the operand
+		xt := a.info().TypeOf(x.X)
+		if xt != nil && isPointer(xt) {
+			a.expr(x.X, cRead)
+		} else if ok {
+			a.expr(x.X, cPath)
+		} else {
+			// owner not of interest: the access belongs to the enclosing field, if any
+			if c == cLockRecv {
+				c = cPath
+			}
+			a.expr(x.X, c)
+		}
+	case types.MethodVal:
+		// method value (not in call position)
+		if f, ok := sel.Obj().(*types.Func); ok {
+			if n := a.byFunc[f]; n != nil {
+				a.force(n, "method value")
+			}
+		}
+		a.unknown("method-value", x)
+		a.expr(x.X, cRead)
+	default:
+		a.expr(x.X, cRead)
+	}
+}
+
+func (a *analysis) chanOp(e ast.Expr, kind string, pos token.Pos) {
+	for {
+		if p, ok := e.(*ast.ParenExpr); ok {
+			e = p.X
+			continue
+		}
+		break
+	}
+	x, ok := e.(*ast.SelectorExpr)
+	if !ok {
+		return
+	}
+	sel := a.info().Selections[x]
+	if sel == nil || sel.Kind() != types.FieldVal {
+		return
+	}
+	owner, fv := fieldOwner(sel)
+	tname, ok := a.typeName(owner)
+	if !ok {
+		return
+	}
+	if _, isChan := fv.Type().Underlying().(*types.Chan); !isChan {
+		return
+	}
+	f := chanFact{tname, fv.Name(), kind, a.cur.name, a.posStr(pos)}
+	a.chans[f.typ+"|"+f.field+"|"+f.kind+"|"+f.fn] = f
+}
+
+// ----------------------------------------------------------------------------- calls
+
+func (a *analysis) force(n *node, why string) {
+	if !n.forced {
+		n.forced = true
+		n.why = why
+	}
+}
+
+func (a *analysis) litNode(l *ast.FuncLit) *node {
+	if n := a.byLit[l]; n != nil {
+		return n
+	}
+	root := a.cur
+	for root.parent != nil {
+		root = root.parent
+	}
+	root.nlits++
+	n := &node{name: fmt.Sprintf("%s$%d", root.name, root.nlits), lit: l, pkg: a.cur.pkg, parent: a.cur}
+	a.byLit[l] = n
+	a.nodes = append(a.nodes, n)
+	// parameters of the literal
+	a.declareParams(n, l.Type)
+	return n
+}
+
+func (a *analysis) declareParams(n *node, ft *ast.FuncType) {
+	if ft.Params == nil {
+		return
+	}
+	i := 0
+	for _, f := range ft.Params.List {
+		names := f.Names
+		if len(names) == 0 {
+			i++
+			continue
+		}
+		for _, id := range names {
+			if v, ok := n.pkg.TypesInfo.Defs[id].(*types.Var); ok {
+				if _, isFn := v.Type().Underlying().(*types.Signature); isFn {
+					a.params[v] = &pparam{owner: n, index: i}
+				}
+			}
+			i++
+		}
+	}
+}
+
+// lockName resolves the receiver of a Lock/Unlock call to a lock name, or "".
+func (a *analysis) lockName(recv ast.Expr, promoted []int, recvT types.Type) string {
+	for {
+		if p, ok := recv.(*ast.ParenExpr); ok {
+			recv = p.X
+			continue
+		}
+		break
+	}
+	if len(promoted) > 1 {
+		// x.Lock() with an embedded mutex: walk the embedding path
+		t := recvT
+		var owner *types.Named
+		var fv *types.Var
+		for _, idx := range promoted[:len(promoted)-1] {
+			owner = namedOf(t)
+			st, ok := deref(t).Underlying().(*types.Struct)
+			if !ok {
+				return ""
+			}
+			fv = st.Field(idx)
+			if isPointer(fv.Type()) {
+				return ""
+			}
+			t = fv.Type()
+		}
+		if owner == nil {
+			return ""
+		}
+		return a.displayName(owner) + "." + fv.Name()
+	}
+	switch x := recv.(type) {
+	case *ast.SelectorExpr:
+		sel := a.info().Selections[x]
+		if sel == nil {
+			// pkg.Var
+			if v, ok := a.info().Uses[x.Sel].(*types.Var); ok && !isPointer(v.Type()) {
+				return "$" + v.Pkg().Name() + "." + v.Name()
+			}
+			return ""
+		}
+		if sel.Kind() != types.FieldVal {
+			return ""
+		}
+		owner, fv := fieldOwner(sel)
+		if owner == nil || isPointer(fv.Type()) {
+			return ""
+		}
+		return a.displayName(owner) + "." + fv.Name()
+	case *ast.Ident:
+		v, ok := a.info().Uses[x].(*types.Var)
+		if !ok || isPointer(v.Type()) {
+			return ""
+		}
+		if v.Parent() == v.Pkg().Scope() {
+			return "$" + v.Pkg().Name() + "." + v.Name()
+		}
+		root := a.cur
+		for root.parent != nil {
+			root = root.parent
+		}
+		return "$local." + root.name + "." + v.Name()
+	}
+	return ""
+}
+
+// calleeOf classifies the function expression of a call.
+type callee struct {
+	kind   string // "conv","builtin","atomicfn","lock","syncmethod","node","iface","foreign","litcall","param","litvar","funcvalue"
+	name   string
+	nodes  []*node
+	pp     *pparam
+	sel    *ast.SelectorExpr
+	fn     *types.Func
+	lockOp string
+}
+
+func (a *analysis) classify(c *ast.CallExpr) callee {
+	fun := c.Fun
+	for {
+		if p, ok := fun.(*ast.ParenExpr); ok {
+			fun = p.X
+			continue
+		}
+		break
+	}
+	if tv, ok := a.info().Types[fun]; ok && tv.IsType() {
+		return callee{kind: "conv"}
+	}
+	switch x := fun.(type) {
+	case *ast.FuncLit:
+		return callee{kind: "litcall"}
+	case *ast.IndexExpr: // generic instantiation
+		fun = x.X
+	case *ast.IndexListExpr:
+		fun = x.X
+	}
+	switch x := fun.(type) {
+	case *ast.Ident:
+		switch o := a.info().Uses[x].(type) {
+		case *types.Builtin:
+			return callee{kind: "builtin", name: o.Name()}
+		case *types.Func:
+			return a.funcCallee(o, nil)
+		case *types.Var:
+			if pp := a.params[o]; pp != nil {
+				return callee{kind: "param", pp: pp}
+			}
+			if n := a.litVar[o]; n != nil {
+				return callee{kind: "litvar", nodes: []*node{n}}
+			}
+			return callee{kind: "funcvalue"}
+		}
+	case *ast.SelectorExpr:
+		sel := a.info().Selections[x]
+		if sel == nil {
+			if o, ok := a.info().Uses[x.Sel].(*types.Func); ok {
+				return a.funcCallee(o, nil)
+			}
+			return callee{kind: "funcvalue", sel: x}
+		}
+		switch sel.Kind() {
+		case types.MethodVal:
+			f := sel.Obj().(*types.Func)
+			sig := f.Type().(*types.Signature)
+			if sig.Recv() != nil {
+				if _, isIface := sig.Recv().Type().Underlying().(*types.Interface); isIface {
+					return a.ifaceCallee(f, x)
+				}
+				if k := syncKind(sig.Recv().Type()); k == "mutex" || k == "rwmutex" {
+					return callee{kind: "lock", lockOp: f.Name(), sel: x, fn: f}
+				} else if k == "sync" {
+					return callee{kind: "syncmethod", sel: x, fn: f, name: f.Name()}
+				}
+			}
+			cl := a.funcCallee(f, x)
+			return cl
+		case types.FieldVal:
+			return callee{kind: "funcvalue", sel: x}
+		}
+	}
+	return callee{kind: "funcvalue"}
+}
+
+func (a *analysis) funcCallee(f *types.Func, sel *ast.SelectorExpr) callee {
+	f = f.Origin()
+	if n := a.byFunc[f]; n != nil {
+		return callee{kind: "node", nodes: []*node{n}, sel: sel, fn: f}
+	}
+	if f.Pkg() != nil && f.Pkg().Path() == "sync/atomic" {
+		return callee{kind: "atomicfn", fn: f, sel: sel}
+	}
+	return callee{kind: "foreign", fn: f, sel: sel}
+}
+
+func (a *analysis) ifaceCallee(f *types.Func, sel *ast.SelectorExpr) callee {
+	it, _ := f.Type().(*types.Signature).Recv().Type().Underlying().(*types.Interface)
+	var ns []*node
+	if it != nil {
+		for _, nt := range a.named {
+			if _, isI := nt.Underlying().(*types.Interface); isI {
+				continue
+			}
+			for _, t := range []types.Type{nt, types.NewPointer(nt)} {
+				if types.Implements(t, it) {
+					ms := types.NewMethodSet(t)
+					if m := ms.Lookup(f.Pkg(), f.Name()); m != nil {
+						if mf, ok := m.Obj().(*types.Func); ok {
+							if n := a.byFunc[mf.Origin()]; n != nil {
+								ns = append(ns, n)
+							}
+						}
+					}
+					break
+				}
+			}
+		}
+	}
+	return callee{kind: "iface", nodes: ns, sel: sel, fn: f}
+}
+
+// how: "call", "go", "defer"
+func (a *analysis) call(c *ast.CallExpr, how string) {
+	cl := a.classify(c)
+	// the state with which a callee starts
+	siteState := func() *rel {
+		switch how {
+		case "go":
+			r := newRel()
+			r.killAll = true
+			return r
+		case "defer":
+			r := newRel()
+			r.killAll = true
+			for k := range a.st.gen {
+				if a.deferred[k] {
+					r.gen[k] = true
+				}
+			}
+			return r
+		}
+		return a.st.clone()
+	}
+
+	switch cl.kind {
+	case "conv":
+		for _, arg := range c.Args {
+			a.expr(arg, cRead)
+		}
+		return
+	case "builtin":
+		switch cl.name {
+		case "close":
+			if len(c.Args) == 1 {
+				a.chanOp(c.Args[0], "CClose", c.Pos())
+			}
+			a.args(c, nil, cRead)
+		case "delete", "clear":
+			if len(c.Args) > 0 {
+				a.expr(c.Args[0], cWrite)
+				for _, x := range c.Args[1:] {
+					a.expr(x, cRead)
+				}
+			}
+		case "copy":
+			if len(c.Args) == 2 {
+				a.expr(c.Args[0], cWrite)
+				a.expr(c.Args[1], cRead)
+			}
+		case "panic":
+			a.args(c, nil, cRead)
+			if how == "call" {
+				a.st = bottom()
+			}
+		case "new", "make":
+			for _, x := range c.Args[1:] {
+				a.expr(x, cRead)
+			}
+		default:
+			a.args(c, nil, cRead)
+		}
+		return
+	case "atomicfn":
+		for i, arg := range c.Args {
+			if i == 0 {
+				if u, ok := arg.(*ast.UnaryExpr); ok && u.Op == token.AND {
+					a.expr(u.X, cAtomic)
+					continue
+				}
+			}
+			a.expr(arg, cRead)
+		}
+		if cl.sel != nil && a.info().Selections[cl.sel] != nil {
+			a.expr(cl.sel.X, cAtomic) // method of an atomic.* value reached through funcCallee
+		}
+		return
+	case "lock":
+		sel := a.info().Selections[cl.sel]
+		name := a.lockName(cl.sel.X, sel.Index(), sel.Recv())
+		// the path to the mutex
+		if len(sel.Index()) > 1 {
+			a.expr(cl.sel.X, cRead)
+		} else {
+			a.expr(cl.sel.X, cLockRecv)
+		}
+		if how == "go" {
+			a.unknown("lock-op-in-go", c)
+			return
+		}
+		op := cl.lockOp
+		if name == "" {
+			a.unknown("lock-via-alias:"+op, cl.sel.X)
+			if (op == "Unlock" || op == "RUnlock") && how == "call" {
+				a.st.unlockUnknown()
+			}
+			if (op == "Unlock" || op == "RUnlock") && how == "defer" {
+				// a deferred release through an alias releases nothing we track
+			}
+			return
+		}
+		a.universe[name+"/W"] = true
+		a.universe[name+"/R"] = true
+		switch op {
+		case "Lock":
+			if how == "call" {
+				a.st.lock(name + "/W")
+			}
+		case "RLock":
+			if how == "call" {
+				a.st.lock(name + "/R")
+			}
+		case "Unlock":
+			if how == "call" {
+				a.st.unlock(name + "/W")
+			} else if how == "defer" {
+				a.deferred[name+"/W"] = true
+			}
+		case "RUnlock":
+			if how == "call" {
+				a.st.unlock(name + "/R")
+			} else if how == "defer" {
+				a.deferred[name+"/R"] = true
+			}
+		case "TryLock", "TryRLock":
+			a.unknown("trylock", c) // not counted as an acquisition
+		case "RLocker":
+			a.unknown("rlocker", c)
+		}
+		return
+	case "syncmethod":
+		// method of a sync.* / atomic.* value: a synchronisation operation on the field
+		a.expr(cl.sel.X, cAtomic)
+		a.args(c, nil, cRead)
+		return
+	case "litcall":
+		fun := c.Fun
+		for {
+			if p, ok := fun.(*ast.ParenExpr); ok {
+				fun = p.X
+				continue
+			}
+			break
+		}
+		n := a.litNode(fun.(*ast.FuncLit))
+		a.args(c, nil, cRead)
+		n.sites = append(n.sites, site{a.cur, siteState()})
+		if how == "go" {
+			g := goFact{a.cur.name, n.name, a.posStr(c.Pos())}
+			a.gos[g.spawner+"|"+g.body] = g
+		}
+		a.analyseLit(n)
+		return
+	case "param":
+		a.args(c, nil, cRead)
+		if how == "call" {
+			cl.pp.sites = append(cl.pp.sites, site{a.cur, a.st.clone()})
+		} else {
+			cl.pp.forced = true
+		}
+		return
+	case "litvar":
+		a.args(c, nil, cRead)
+		cl.nodes[0].sites = append(cl.nodes[0].sites, site{a.cur, siteState()})
+		if how == "go" {
+			g := goFact{a.cur.name, cl.nodes[0].name, a.posStr(c.Pos())}
+			a.gos[g.spawner+"|"+g.body] = g
+		}
+		return
+	case "funcvalue":
+		if cl.sel != nil {
+			a.expr(cl.sel, cRead)
+		} else {
+			a.expr(c.Fun, cRead)
+		}
+		a.args(c, nil, cRead)
+		if how == "go" {
+			g := goFact{a.cur.name, "<func value " + a.nodeText(c.Fun) + ">", a.posStr(c.Pos())}
+			a.gos[g.spawner+"|"+g.body] = g
+		}
+		return
+	}
+
+	// node / iface / foreign: receiver, arguments, call edges
+	if cl.sel != nil && a.info().Selections[cl.sel] != nil {
+		a.receiver(cl)
+	}
+	var target []*node
+	if cl.kind == "node" || cl.kind == "iface" {
+		target = cl.nodes
+	}
+	a.args(c, target, cAddrArg)
+	st := siteState()
+	for _, n := range target {
+		n.sites = append(n.sites, site{a.cur, st})
+		if how == "go" {
+			g := goFact{a.cur.name, n.name, a.posStr(c.Pos())}
+			a.gos[g.spawner+"|"+g.body] = g
+		}
+	}
+	if how == "go" && len(target) == 0 {
+		g := goFact{a.cur.name, "<" + a.nodeText(c.Fun) + ">", a.posStr(c.Pos())}
+		a.gos[g.spawner+"|"+g.body] = g
+	}
+}
+
+// receiver of a method call x.m(...)
+func (a *analysis) receiver(cl callee) {
+	x := cl.sel.X
+	xt := a.info().TypeOf(x)
+	sig, _ := cl.fn.Type().(*types.Signature)
+	ptrRecv := sig != nil && sig.Recv() != nil && isPointer(sig.Recv().Type())
+	if xt == nil || isPointer(xt) || !ptrRecv {
+		if xt != nil && !isPointer(xt) && !ptrRecv {
+			a.expr(x, cRead) // value receiver: the value is copied
+			return
+		}
+		a.expr(x, cRead)
+		return
+	}
+	if _, isIface := xt.Underlying().(*types.Interface); isIface {
+		a.expr(x, cRead)
+		return
+	}
+	// pointer-receiver method on an addressable value: &x is passed to the callee
+	if n := namedOf(xt); n != nil {
+		if _, ok := a.typeName(n); ok {
+			if _, isStruct := n.Underlying().(*types.Struct); isStruct {
+				a.expr(x, cPath) // the callee's accesses are recorded in the callee
+				return
+			}
+		}
+	}
+	a.expr(x, cAddrArg)
+}
+
+// args walks the arguments of a call; target: analysed callee(s) (for binding function
+// literals and forwarded parameters), addr: context for &x.f arguments.
+func (a *analysis) args(c *ast.CallExpr, target []*node, addr ctx) {
+	for i, arg := range c.Args {
+		for {
+			if p, ok := arg.(*ast.ParenExpr); ok {
+				arg = p.X
+				continue
+			}
+			break
+		}
+		switch x := arg.(type) {
+		case *ast.FuncLit:
+			n := a.litNode(x)
+			if pp := a.targetParam(target, i); pp != nil && !n.forced && n.param == nil {
+				n.param = pp
+			} else if !(n.param != nil && n.param == a.targetParam(target, i)) {
+				a.force(n, "literal passed to a function that is not analysed")
+			}
+			a.analyseLit(n)
+			continue
+		case *ast.Ident:
+			if v, ok := a.info().Uses[x].(*types.Var); ok {
+				if pp := a.params[v]; pp != nil {
+					if tp := a.targetParam(target, i); tp != nil {
+						found := false
+						for _, f := range pp.forwards {
+							if f == tp {
+								found = true
+							}
+						}
+						if !found {
+							pp.forwards = append(pp.forwards, tp)
+						}
+					} else {
+						pp.forced = true
+					}
+					continue
+				}
+				if n := a.litVar[v]; n != nil {
+					if tp := a.targetParam(target, i); tp != nil && n.param == nil && !n.forced && len(n.sites) == 0 {
+						n.param = tp
+					} else if !(n.param != nil && n.param == a.targetParam(target, i)) {
+						a.force(n, "literal variable passed on")
+					}
+					continue
+				}
+			}
+		case *ast.UnaryExpr:
+			if x.Op == token.AND {
+				if _, isLit := x.X.(*ast.CompositeLit); !isLit {
+					a.expr(x.X, addr)
+					continue
+				}
+			}
+		}
+		a.expr(arg, cRead)
+	}
+}
+
+func (a *analysis) targetParam(target []*node, i int) *pparam {
+	if len(target) != 1 {
+		return nil // dynamic dispatch or foreign: not followed
+	}
+	n := target[0]
+	var ft *ast.FuncType
+	if n.decl != nil {
+		ft = n.decl.Type
+	} else {
+		ft = n.lit.Type
+	}
+	if ft.Params == nil {
+		return nil
+	}
+	k := 0
+	for _, f := range ft.Params.List {
+		cnt := len(f.Names)
+		if cnt == 0 {
+			cnt = 1
+		}
+		for j := 0; j < cnt; j++ {
+			if k == i && len(f.Names) > 0 {
+				if _, variadic := f.Type.(*ast.Ellipsis); variadic {
+					return nil
+				}
+				if v, ok := n.pkg.TypesInfo.Defs[f.Names[j]].(*types.Var); ok {
+					return a.params[v]
+				}
+			}
+			k++
+		}
+	}
+	return nil
+}
+
+// ----------------------------------------------------------------------------- statements
+
+func (a *analysis) analyseLit(n *node) {
+	if n.analysed {
+		// re-analysed on every pass of an enclosing loop fixpoint: facts are keyed by position
+	}
+	n.analysed = true
+	saveCur, saveSt, saveFrames, saveDef := a.cur, a.st, a.frames, a.deferred
+	a.cur, a.st, a.frames, a.deferred = n, newRel(), nil, map[string]bool{}
+	a.block(n.lit.Body.List)
+	a.cur, a.st, a.frames, a.deferred = saveCur, saveSt, saveFrames, saveDef
+}
+
+func (a *analysis) block(list []ast.Stmt) {
+	for _, s := range list {
+		a.stmt(s, "")
+	}
+}
+
+func (a *analysis) findFrame(label string, needLoop bool) *frame {
+	for i := len(a.frames) - 1; i >= 0; i-- {
+		f := a.frames[i]
+		if label != "" {
+			if f.label == label {
+				return f
+			}
+			continue
+		}
+		if !needLoop || f.isLoop {
+			return f
+		}
+	}
+	return nil
+}
+
+func (a *analysis) assignLHS(e ast.Expr, define bool) {
+	if id, ok := e.(*ast.Ident); ok {
+		if id.Name == "_" {
+			return
+		}
+		obj := a.info().Defs[id]
+		if obj == nil {
+			obj = a.info().Uses[id]
+		}
+		if v, ok := obj.(*types.Var); ok {
+			if n := a.litVar[v]; n != nil && !define {
+				a.force(n, "literal variable reassigned")
+			}
+			if pp := a.params[v]; pp != nil {
+				pp.forced = true
+			}
+			if v.Pkg() != nil && v.Parent() == v.Pkg().Scope() {
+				a.global(v, cWrite, id.Pos())
+			}
+		}
+		return
+	}
+	a.expr(e, cWrite)
+}
+
+func (a *analysis) stmt(s ast.Stmt, label string) {
+	if s == nil {
+		return
+	}
+	switch x := s.(type) {
+	case *ast.BlockStmt:
+		a.block(x.List)
+	case *ast.ExprStmt:
+		a.expr(x.X, cRead)
+	case *ast.EmptyStmt:
+	case *ast.LabeledStmt:
+		a.stmt(x.Stmt, x.Label.Name)
+	case *ast.SendStmt:
+		a.chanOp(x.Chan, "CSend", x.Pos())
+		a.expr(x.Chan, cRead)
+		a.expr(x.Value, cRead)
+	case *ast.IncDecStmt:
+		a.assignLHS(x.X, false)
+	case *ast.AssignStmt:
+		// binding of function literals to local variables
+		for i, r := range x.Rhs {
+			if fl, ok := r.(*ast.FuncLit); ok && len(x.Lhs) == len(x.Rhs) {
+				if id, ok := x.Lhs[i].(*ast.Ident); ok {
+					obj := a.info().Defs[id]
+					if obj == nil {
+						obj = a.info().Uses[id]
+					}
+					if v, ok := obj.(*types.Var); ok && v.Parent() != v.Pkg().Scope() {
+						n := a.litNode(fl)
+						if old := a.litVar[v]; old != nil && old != n {
+							a.force(old, "literal variable reassigned")
+							a.force(n, "literal variable reassigned")
+						}
+						a.litVar[v] = n
+						a.analyseLit(n)
+						continue
+					}
+				}
+			}
+			a.expr(r, cRead)
+		}
+		for i, l := range x.Lhs {
+			if i < len(x.Rhs) && len(x.Lhs) == len(x.Rhs) {
+				if _, ok := x.Rhs[i].(*ast.FuncLit); ok {
+					if _, isId := l.(*ast.Ident); isId {
+						continue
+					}
+				}
+			}
+			a.assignLHS(l, x.Tok == token.DEFINE)
+		}
+	case *ast.GoStmt:
+		a.call(x.Call, "go")
+	case *ast.DeferStmt:
+		a.call(x.Call, "defer")
+	case *ast.ReturnStmt:
+		for _, r := range x.Results {
+			a.expr(r, cRead)
+		}
+		a.st = bottom()
+	case *ast.BranchStmt:
+		lbl := ""
+		if x.Label != nil {
+			lbl = x.Label.Name
+		}
+		switch x.Tok {
+		case token.BREAK:
+			if f := a.findFrame(lbl, false); f != nil {
+				f.breaks = append(f.breaks, a.st.clone())
+			}
+			a.st = bottom()
+		case token.CONTINUE:
+			if f := a.findFrame(lbl, true); f != nil {
+				f.continues = append(f.continues, a.st.clone())
+			}
+			a.st = bottom()
+		case token.GOTO:
+			a.unknown("goto", x)
+			a.st.unlockUnknown()
+		case token.FALLTHROUGH:
+			a.unknown("fallthrough", x)
+		}
+	case *ast.IfStmt:
+		a.stmt(x.Init, "")
+		a.expr(x.Cond, cRead)
+		in := a.st.clone()
+		a.block(x.Body.List)
+		thenOut := a.st
+		a.st = in
+		if x.Else != nil {
+			a.stmt(x.Else, "")
+		}
+		a.st = meet(thenOut, a.st)
+		if thenOut.bottom && a.st.bottom {
+			a.st = bottom()
+		}
+	case *ast.ForStmt:
+		a.stmt(x.Init, "")
+		a.loop(label, func() {
+			a.expr(x.Cond, cRead)
+		}, func() {
+			a.block(x.Body.List)
+		}, func() { a.stmt(x.Post, "") }, x.Cond == nil)
+	case *ast.RangeStmt:
+		a.expr(x.X, cRead)
+		if t := a.info().TypeOf(x.X); t != nil {
+			if _, isChan := t.Underlying().(*types.Chan); isChan {
+				a.chanOp(x.X, "CRecv", x.Pos())
+			}
+		}
+		a.loop(label, func() {
+			if x.Key != nil {
+				a.assignLHS(x.Key, x.Tok == token.DEFINE)
+			}
+			if x.Value != nil {
+				a.assignLHS(x.Value, x.Tok == token.DEFINE)
+			}
+		}, func() { a.block(x.Body.List) }, func() {}, false)
+	case *ast.SwitchStmt:
+		a.stmt(x.Init, "")
+		a.expr(x.Tag, cRead)
+		a.clauses(label, x.Body.List, false)
+	case *ast.TypeSwitchStmt:
+		a.stmt(x.Init, "")
+		a.stmt(x.Assign, "")
+		a.clauses(label, x.Body.List, false)
+	case *ast.SelectStmt:
+		a.clauses(label, x.Body.List, true)
+	case *ast.DeclStmt:
+		if gd, ok := x.Decl.(*ast.GenDecl); ok {
+			for _, sp := range gd.Specs {
+				if vs, ok := sp.(*ast.ValueSpec); ok {
+					for i, v := range vs.Values {
+						if fl, ok := v.(*ast.FuncLit); ok && i < len(vs.Names) {
+							if vv, ok := a.info().Defs[vs.Names[i]].(*types.Var); ok {
+								n := a.litNode(fl)
+								a.litVar[vv] = n
+								a.analyseLit(n)
+								continue
+							}
+						}
+						a.expr(v, cRead)
+					}
+				}
+			}
+		}
+	default:
+		a.unknown("statement", s)
+	}
+}
+
+func (a *analysis) loop(label string, head, body, post func(), noCond bool) {
+	in := a.st.clone()
+	h := in.clone()
+	var f *frame
+	for iter := 0; iter < 50; iter++ {
+		f = &frame{label: label, isLoop: true}
+		a.frames = append(a.frames, f)
+		a.st = h.clone()
+		head()
+		afterHead := a.st.clone()
+		body()
+		out := a.st
+		for _, c := range f.continues {
+			out = meet(out, c)
+		}
+		a.st = out
+		post()
+		out = a.st
+		a.frames = a.frames[:len(a.frames)-1]
+		h2 := meet(in, out)
+		if in.bottom {
+			h2 = in.clone()
+		}
+		// exit state
+		var exit *rel
+		if noCond {
+			exit = bottom()
+		} else {
+			exit = afterHead
+		}
+		for _, b := range f.breaks {
+			exit = meet(exit, b)
+		}
+		if h2.equal(h) {
+			a.st = exit
+			return
+		}
+		h = h2
+	}
+	a.unknown("loop-fixpoint-not-reached", &ast.Ident{Name: label})
+	a.st = newRel()
+	a.st.unlockUnknown()
+}
+
+func (a *analysis) clauses(label string, list []ast.Stmt, isSelect bool) {
+	in := a.st.clone()
+	f := &frame{label: label}
+	a.frames = append(a.frames, f)
+	out := bottom()
+	hasDefault := false
+	for _, cs := range list {
+		a.st = in.clone()
+		switch cc := cs.(type) {
+		case *ast.CaseClause:
+			if cc.List == nil {
+				hasDefault = true
+			}
+			for _, e := range cc.List {
+				if tv, ok := a.info().Types[e]; ok && tv.IsType() {
+					continue
+				}
+				a.expr(e, cRead)
+			}
+			a.block(cc.Body)
+		case *ast.CommClause:
+			if cc.Comm == nil {
+				hasDefault = true
+			}
+			a.stmt(cc.Comm, "")
+			a.block(cc.Body)
+		}
+		out = meet(out, a.st)
+	}
+	a.frames = a.frames[:len(a.frames)-1]
+	if !hasDefault && !isSelect {
+		out = meet(out, in)
+	}
+	for _, b := range f.breaks {
+		out = meet(out, b)
+	}
+	if isSelect && len(list) == 0 {
+		out = bottom() // select {} blocks forever
+	}
+	a.st = out
+}
+
+// ----------------------------------------------------------------------------- fresh locals
+
+// computeFresh finds, in one top-level function, the local variables initialised with a
+// new object (&T{}, T{}, new(T), var x T) and the position at which each first escapes.
+func (a *analysis) computeFresh(n *node) {
+	a.fresh = map[*types.Var]token.Pos{}
+	info := n.pkg.TypesInfo
+	body := n.decl.Body
+	isNew := func(e ast.Expr) bool {
+		for {
+			if p, ok := e.(*ast.ParenExpr); ok {
+				e = p.X
+				continue
+			}
+			break
+		}
+		switch x := e.(type) {
+		case *ast.UnaryExpr:
+			if x.Op == token.AND {
+				_, ok := x.X.(*ast.CompositeLit)
+				return ok
+			}
+		case *ast.CompositeLit:
+			return true
+		case *ast.CallExpr:
+			if id, ok := x.Fun.(*ast.Ident); ok {
+				if b, ok := info.Uses[id].(*types.Builtin); ok && b.Name() == "new" {
+					return true
+				}
+			}
+		}
+		return false
+	}
+	cands := map[*types.Var]token.Pos{}
+	ast.Inspect(body, func(nd ast.Node) bool {
+		switch x := nd.(type) {
+		case *ast.AssignStmt:
+			if x.Tok == token.DEFINE && len(x.Lhs) == len(x.Rhs) {
+				for i, l := range x.Lhs {
+					if id, ok := l.(*ast.Ident); ok && isNew(x.Rhs[i]) {
+						if v, ok := info.Defs[id].(*types.Var); ok {
+							cands[v] = id.Pos()
+						}
+					}
+				}
+			}
+		case *ast.ValueSpec:
+			for i, id := range x.Names {
+				if v, ok := info.Defs[id].(*types.Var); ok {
+					if len(x.Values) == 0 {
+						if _, isStruct := v.Type().Underlying().(*types.Struct); isStruct {
+							cands[v] = id.Pos()
+						}
+					} else if i < len(x.Values) && isNew(x.Values[i]) {
+						cands[v] = id.Pos()
+					}
+				}
+			}
+		}
+		return true
+	})
+	if len(cands) == 0 {
+		return
+	}
+	const never = token.Pos(1 << 40)
+	esc := map[*types.Var]token.Pos{}
+	for v := range cands {
+		esc[v] = never
+	}
+	var stack []ast.Node
+	mark := func(v *types.Var, pos token.Pos) {
+		// an escape inside a loop that does not contain the declaration counts from the loop start;
+		// an escape inside a function literal counts from the literal
+		for i := len(stack) - 1; i >= 0; i-- {
+			switch l := stack[i].(type) {
+			case *ast.ForStmt, *ast.RangeStmt:
+				if !(l.Pos() <= cands[v] && cands[v] < l.End()) && l.Pos() < pos {
+					pos = l.Pos()
+				}
+			case *ast.FuncLit:
+				if l.Pos() < pos {
+					pos = l.Pos()
+				}
+			}
+		}
+		if pos < esc[v] {
+			esc[v] = pos
+		}
+	}
+	ast.Inspect(body, func(nd ast.Node) bool {
+		if nd == nil {
+			stack = stack[:len(stack)-1]
+			return true
+		}
+		stack = append(stack, nd)
+		id, ok := nd.(*ast.Ident)
+		if !ok {
+			return true
+		}
+		v, ok := info.Uses[id].(*types.Var)
+		if !ok {
+			return true
+		}
+		if _, isCand := cands[v]; !isCand {
+			return true
+		}
+		// allowed use: X of a field selection (not a method call), outside function literals
+		inLit := false
+		for _, s := range stack {
+			if _, ok := s.(*ast.FuncLit); ok {
+				inLit = true
+			}
+		}
+		if len(stack) >= 2 && !inLit {
+			if se, ok := stack[len(stack)-2].(*ast.SelectorExpr); ok && se.X == id {
+				if sel := info.Selections[se]; sel != nil && sel.Kind() == types.FieldVal {
+					// x.f used as &x.f or as a pointer-receiver call receiver still counts as
+					// an access of x.f, not as an escape of x
+					return true
+				}
+			}
+		}
+		mark(v, id.Pos())
+		return true
+	})
+	for v, p := range esc {
+		a.fresh[v] = p
+	}
+}
+
+// ----------------------------------------------------------------------------- driver
+
+type config struct {
+	repo     string
+	patterns []string
+	tags     string
+	interest map[string][]string // package path suffix ("" = root) -> type names
+}
+
+func load(dir string, patterns []string, tags string) ([]*packages.Package, error) {
+	cfg := &packages.Config{
+		Mode: packages.NeedName | packages.NeedFiles | packages.NeedSyntax | packages.NeedTypes |
+			packages.NeedTypesInfo | packages.NeedImports | packages.NeedDeps,
+		Dir: dir,
+		Env: append(os.Environ(), "GOFLAGS=-mod=mod", "GOPROXY=off", "GOSUMDB=off", "GOTOOLCHAIN=local"),
+	}
+	if tags != "" {
+		cfg.BuildFlags = []string{"-tags=" + tags}
+	}
+	pkgs, err := packages.Load(cfg, patterns...)
 	if err != nil {
-		panic(err)
+		return nil, err
 	}
 	for _, p := range pkgs {
-		fmt.Println(p.PkgPath, len(p.Syntax), len(p.Errors))
+		if len(p.Errors) > 0 {
+			return nil, fmt.Errorf("package %s: %v", p.PkgPath, p.Errors[0])
+		}
+	}
+	sort.Slice(pkgs, func(i, j int) bool { return pkgs[i].PkgPath < pkgs[j].PkgPath })
+	return pkgs, nil
+}
+
+func recvTypeName(fd *ast.FuncDecl) string {
+	if fd.Recv == nil || len(fd.Recv.List) == 0 {
+		return ""
+	}
+	t := fd.Recv.List[0].Type
+	for {
+		switch x := t.(type) {
+		case *ast.StarExpr:
+			t = x.X
+			continue
+		case *ast.ParenExpr:
+			t = x.X
+			continue
+		case *ast.IndexExpr:
+			t = x.X
+			continue
+		case *ast.Ident:
+			return x.Name
+		}
+		return ""
+	}
+}
+
+func run(pkgs []*packages.Package, interest map[*types.TypeName]string, allStruct bool) *analysis {
+	a := &analysis{
+		fset: pkgs[0].Fset, pkgs: pkgs, pkgOf: map[*types.Package]*packages.Package{},
+		interest: interest, allStruct: allStruct,
+		byFunc: map[*types.Func]*node{}, byLit: map[*ast.FuncLit]*node{},
+		params: map[*types.Var]*pparam{}, litVar: map[*types.Var]*node{},
+		facts: map[string]*rawFact{}, chans: map[string]chanFact{}, gos: map[string]goFact{},
+		unks: map[string]unkFact{}, globalsW: map[*types.Var]bool{}, universe: map[string]bool{},
+	}
+	root := pkgs[0]
+	for _, p := range pkgs {
+		a.pkgOf[p.Types] = p
+		if len(p.PkgPath) < len(root.PkgPath) {
+			root = p
+		}
+	}
+	// root package first
+	sort.SliceStable(a.pkgs, func(i, j int) bool { return a.pkgs[i] == root && a.pkgs[j] != root })
+	prefix := func(p *packages.Package) string {
+		if p == root {
+			return ""
+		}
+		return p.Name + "."
+	}
+	// nodes for declared functions
+	for _, p := range a.pkgs {
+		sc := p.Types.Scope()
+		for _, nm := range sc.Names() {
+			if tn, ok := sc.Lookup(nm).(*types.TypeName); ok {
+				if n, ok := tn.Type().(*types.Named); ok {
+					a.named = append(a.named, n)
+				}
+			}
+		}
+		for _, f := range p.Syntax {
+			for _, d := range f.Decls {
+				fd, ok := d.(*ast.FuncDecl)
+				if !ok || fd.Body == nil {
+					continue
+				}
+				obj, _ := p.TypesInfo.Defs[fd.Name].(*types.Func)
+				if obj == nil {
+					continue
+				}
+				name := prefix(p) + fd.Name.Name
+				if r := recvTypeName(fd); r != "" {
+					name = prefix(p) + r + "." + fd.Name.Name
+				}
+				n := &node{name: name, decl: fd, pkg: p}
+				if fd.Name.IsExported() || fd.Name.Name == "init" || fd.Name.Name == "main" {
+					n.forced, n.why = true, "exported"
+				}
+				a.nodes = append(a.nodes, n)
+				a.byFunc[obj] = n
+				a.declareParams(n, fd.Type)
+			}
+		}
+	}
+	// package-level variables written outside package initialisation
+	for _, p := range a.pkgs {
+		for _, f := range p.Syntax {
+			for _, d := range f.Decls {
+				fd, ok := d.(*ast.FuncDecl)
+				if !ok || fd.Body == nil || fd.Name.Name == "init" {
+					continue
+				}
+				ast.Inspect(fd.Body, func(nd ast.Node) bool {
+					markW := func(e ast.Expr) {
+						for {
+							switch x := e.(type) {
+							case *ast.ParenExpr:
+								e = x.X
+								continue
+							case *ast.IndexExpr:
+								e = x.X
+								continue
+							case *ast.SelectorExpr:
+								if p.TypesInfo.Selections[x] == nil {
+									e = x.Sel
+								} else if s := p.TypesInfo.Selections[x]; s.Kind() == types.FieldVal && !isPointer(p.TypesInfo.TypeOf(x.X)) {
+									e = x.X
+								} else {
+									return
+								}
+								continue
+							case *ast.Ident:
+								if v, ok := p.TypesInfo.Uses[x].(*types.Var); ok && v.Pkg() != nil && v.Parent() == v.Pkg().Scope() && a.pkgOf[v.Pkg()] != nil {
+									a.globalsW[v] = true
+								}
+							}
+							return
+						}
+					}
+					switch x := nd.(type) {
+					case *ast.AssignStmt:
+						if x.Tok != token.DEFINE {
+							for _, l := range x.Lhs {
+								markW(l)
+							}
+						}
+					case *ast.IncDecStmt:
+						markW(x.X)
+					case *ast.UnaryExpr:
+						if x.Op == token.AND {
+							markW(x.X)
+						}
+					case *ast.CallExpr:
+						// pointer-receiver method call on a global value, delete(global, k)
+						if se, ok := x.Fun.(*ast.SelectorExpr); ok {
+							if s := p.TypesInfo.Selections[se]; s != nil && s.Kind() == types.MethodVal {
+								if sig, ok := s.Obj().Type().(*types.Signature); ok && sig.Recv() != nil && isPointer(sig.Recv().Type()) {
+									if t := p.TypesInfo.TypeOf(se.X); t != nil && !isPointer(t) {
+										markW(se.X)
+									}
+								}
+							}
+						}
+						if id, ok := x.Fun.(*ast.Ident); ok && len(x.Args) > 0 {
+							if b, ok := p.TypesInfo.Uses[id].(*types.Builtin); ok && (b.Name() == "delete" || b.Name() == "clear") {
+								markW(x.Args[0])
+							}
+						}
+					}
+					return true
+				})
+			}
+		}
+	}
+	// analyse bodies
+	for _, n := range append([]*node{}, a.nodes...) {
+		if n.decl == nil {
+			continue
+		}
+		a.cur, a.st, a.frames, a.deferred = n, newRel(), nil, map[string]bool{}
+		a.computeFresh(n)
+		a.block(n.decl.Body.List)
+		n.analysed = true
+	}
+	a.fixpoint()
+	return a
+}
+
+func (a *analysis) universeList() []string {
+	var u []string
+	for k := range a.universe {
+		u = append(u, k)
+	}
+	sort.Strings(u)
+	return u
+}
+
+func (a *analysis) fixpoint() {
+	u := a.universeList()
+	var pps []*pparam
+	for _, pp := range a.params {
+		pps = append(pps, pp)
+	}
+	for _, n := range a.nodes {
+		n.entry = nil
+		if n.forced {
+			n.entry = lockset{}
+		}
+	}
+	for _, pp := range pps {
+		pp.entry = nil
+		if pp.forced {
+			pp.entry = lockset{}
+		}
+	}
+	for changed, iter := true, 0; changed && iter < 200; iter++ {
+		changed = false
+		for _, pp := range pps {
+			if pp.forced {
+				continue
+			}
+			var e lockset // TOP
+			for _, s := range pp.sites {
+				e = lsMeet(e, s.st.apply(s.from.entry, u))
+			}
+			for _, f := range pp.forwards {
+				e = lsMeet(e, f.entry)
+			}
+			if len(pp.sites) == 0 && len(pp.forwards) == 0 {
+				e = lockset{} // never called as far as we can see: claim nothing
+			}
+			if !lsEq(e, pp.entry) {
+				pp.entry = e
+				changed = true
+			}
+		}
+		for _, n := range a.nodes {
+			if n.forced {
+				continue
+			}
+			var e lockset
+			if n.param != nil {
+				e = n.param.entry
+			} else if len(n.sites) == 0 {
+				e = lockset{} // no static call site: claim nothing
+			}
+			for _, s := range n.sites {
+				e = lsMeet(e, s.st.apply(s.from.entry, u))
+			}
+			if !lsEq(e, n.entry) {
+				n.entry = e
+				changed = true
+			}
+		}
+	}
+	// anything still TOP is unreachable from an entry point (mutual recursion without
+	// an outside caller): claim nothing
+	for _, n := range a.nodes {
+		if n.entry == nil {
+			n.entry = lockset{}
+		}
+	}
+}
+
+// ----------------------------------------------------------------------------- output
+
+type outFact struct {
+	Type, Field, Kind, Func string
+	Locks                   []string
+	Fresh                   bool
+	Pos                     string
+}
+
+func (a *analysis) outFacts() []outFact {
+	u := a.universeList()
+	seen := map[string]bool{}
+	var raw []*rawFact
+	for _, f := range a.facts {
+		raw = append(raw, f)
+	}
+	sort.Slice(raw, func(i, j int) bool {
+		if raw[i].pos != raw[j].pos {
+			return raw[i].pos < raw[j].pos
+		}
+		return raw[i].kind+raw[i].field < raw[j].kind+raw[j].field
+	})
+	var out []outFact
+	for _, f := range raw {
+		ls := f.st.apply(f.n.entry, u)
+		var locks []string
+		for k := range ls {
+			locks = append(locks, k)
+		}
+		sort.Strings(locks)
+		o := outFact{f.typ, f.field, f.kind, f.n.name, locks, f.fresh, a.posStr(f.pos)}
+		key := fmt.Sprint(o.Type, "|", o.Field, "|", o.Kind, "|", o.Func, "|", o.Locks, "|", o.Fresh)
+		if seen[key] {
+			continue
+		}
+		seen[key] = true
+		out = append(out, o)
+	}
+	sort.SliceStable(out, func(i, j int) bool {
+		if out[i].Type != out[j].Type {
+			return out[i].Type < out[j].Type
+		}
+		if out[i].Field != out[j].Field {
+			return out[i].Field < out[j].Field
+		}
+		return out[i].Func < out[j].Func
+	})
+	return out
+}
+
+func q(s string) string { return "\"" + strings.ReplaceAll(s, "\"", "\"\"") + "\"" }
+
+func coqLocks(ls []string) string {
+	var parts []string
+	for _, l := range ls {
+		name, mode := l[:len(l)-2], "MW"
+		if strings.HasSuffix(l, "/R") {
+			mode = "MR"
+		}
+		parts = append(parts, "("+q(name)+", "+mode+")")
+	}
+	return "[" + strings.Join(parts, "; ") + "]"
+}
+
+func coqBool(b bool) string {
+	if b {
+		return "true"
+	}
+	return "false"
+}
+
+func chunked(w *strings.Builder, name, typ string, items []string) {
+	const sz = 150
+	var parts []string
+	for i := 0; i < len(items); i += sz {
+		j := i + sz
+		if j > len(items) {
+			j = len(items)
+		}
+		pn := fmt.Sprintf("%s_%d", name, i/sz)
+		fmt.Fprintf(w, "Definition %s : list %s := [\n  %s\n].\n", pn, typ, strings.Join(items[i:j], ";\n  "))
+		parts = append(parts, pn)
+	}
+	if len(parts) == 0 {
+		fmt.Fprintf(w, "Definition %s : list %s := [].\n\n", name, typ)
+		return
+	}
+	fmt.Fprintf(w, "Definition %s : list %s := %s.\n\n", name, typ, strings.Join(parts, " ++ "))
+}
+
+func header() string {
+	return `(* Gen/Skeleton.v — GENERATED by harness/cmd/vskel from /repo's current source.  Do not edit.
+
+   What the translator tracks.  For every function and function literal of packages kafka,
+   protocol and compress/... (build tag verif OFF) a must-hold lockset at every statement:
+   sequence; if/switch/select join by intersection; loops to a fixpoint; break/continue/
+   return/panic; x.Lock()/x.RLock()/x.Unlock()/x.RUnlock() where x is a chain of fields
+   ending in a sync.Mutex/sync.RWMutex VALUE (or a package-level / local mutex variable);
+   defer x.Unlock() keeps x to the end of the function; an unexported function or a
+   function literal starts with the intersection of the locksets at its static call
+   sites (calls through interfaces are resolved to every implementing type of the
+   analysed packages); a literal passed as an argument to an analysed function starts
+   with the intersection over the places where that parameter is called (followed through
+   forwarding); exported functions, go targets, functions/literals used as values or handed
+   to code that is not analysed start with the empty lockset; a deferred call starts with
+   the locks whose deferred Unlock was registered before it.
+
+   What it does NOT track (all on the safe side unless noted):
+   - object identity: lock "T.f" means the f of SOME T (the policy check assumes it is the f
+     of the object whose field is accessed)  [not on the safe side: trusted];
+   - locks reached through a pointer (a *sync.Mutex field, parameter or local, e.g. the
+     read lock that Conn.waitResponse returns): Lock is ignored, Unlock empties the
+     lockset, and the site is listed in [unknowns];
+   - locals shared with goroutines/closures, heap objects reached through pointers, map
+     and slice elements (attributed to the field holding the map/slice);
+   - calls of exported-named methods of unexported types from outside the analysed packages
+     (they are treated as entry points, i.e. empty lockset: safe);
+   - panics as control flow (a deferred function is assumed to run after a normal return);
+   - goto (empties the lockset, listed in [unknowns]).
+   [fresh] = the object was allocated by a composite literal/new/var in the same function
+   and has not been used other than through field selections before this access. *)
+`
+}
+
+func (a *analysis) emit(typesSeen []string, fields [][2]string, exported [][2]string) (string, map[string]int) {
+	var w strings.Builder
+	w.WriteString(header())
+	w.WriteString("From Coq Require Import List String.\nFrom KV Require Import Model.DRF.\nImport ListNotations.\nOpen Scope string_scope.\n\n")
+	var it []string
+	for _, t := range typesSeen {
+		it = append(it, q(t))
+	}
+	chunked(&w, "types_seen", "string", it)
+	it = nil
+	for _, f := range fields {
+		it = append(it, "("+q(f[0])+", "+q(f[1])+")")
+	}
+	chunked(&w, "fields", "(string * string)", it)
+	facts := a.outFacts()
+	it = nil
+	nfresh := 0
+	byKind := map[string]int{}
+	for _, f := range facts {
+		it = append(it, fmt.Sprintf("mkAcc %s %s %s %s %s %s %s", q(f.Type), q(f.Field), f.Kind, q(f.Func), coqLocks(f.Locks), coqBool(f.Fresh), q(f.Pos)))
+		if f.Fresh {
+			nfresh++
+		}
+		byKind[f.Kind]++
+	}
+	chunked(&w, "accesses", "access_fact", it)
+	var gl []goFact
+	for _, g := range a.gos {
+		gl = append(gl, g)
+	}
+	sort.Slice(gl, func(i, j int) bool { return gl[i].spawner+gl[i].body < gl[j].spawner+gl[j].body })
+	it = nil
+	for _, g := range gl {
+		it = append(it, fmt.Sprintf("mkGo %s %s %s", q(g.spawner), q(g.body), q(g.pos)))
+	}
+	chunked(&w, "gos", "go_fact", it)
+	var cl []chanFact
+	for _, c := range a.chans {
+		cl = append(cl, c)
+	}
+	sort.Slice(cl, func(i, j int) bool {
+		return cl[i].typ+cl[i].field+cl[i].kind+cl[i].fn < cl[j].typ+cl[j].field+cl[j].kind+cl[j].fn
+	})
+	it = nil
+	for _, c := range cl {
+		it = append(it, fmt.Sprintf("mkChan %s %s %s %s %s", q(c.typ), q(c.field), c.kind, q(c.fn), q(c.pos)))
+	}
+	chunked(&w, "chans", "chan_fact", it)
+	var ul []unkFact
+	for _, u := range a.unks {
+		ul = append(ul, u)
+	}
+	sort.Slice(ul, func(i, j int) bool { return ul[i].fn+ul[i].what+ul[i].text < ul[j].fn+ul[j].what+ul[j].text })
+	it = nil
+	for _, u := range ul {
+		it = append(it, fmt.Sprintf("mkUnk %s %s %s", q(u.fn), q(u.what), q(u.text)))
+	}
+	chunked(&w, "unknowns", "unknown_fact", it)
+	it = nil
+	for _, e := range exported {
+		it = append(it, "("+q(e[0])+", "+q(e[1])+")")
+	}
+	chunked(&w, "exported_methods", "(string * string)", it)
+	it = nil
+	nfun, nlit := 0, 0
+	for _, n := range a.nodes {
+		if n.analysed {
+			it = append(it, q(n.name))
+			if n.lit != nil {
+				nlit++
+			} else {
+				nfun++
+			}
+		}
+	}
+	sort.Strings(it)
+	chunked(&w, "functions", "string", it)
+	counts := map[string]int{
+		"types": len(typesSeen), "fields": len(fields), "access_facts": len(facts), "fresh_facts": nfresh,
+		"functions": nfun, "function_literals": nlit, "go_statements": len(gl), "channel_ops": len(cl),
+		"unknowns": len(ul), "exported_methods": len(exported), "lock_names": len(a.universe) / 2,
+	}
+	for k, v := range byKind {
+		counts["kind_"+k] = v
+	}
+	return w.String(), counts
+}
+
+// interest table: package (path suffix after the module path) -> type names
+var interestTable = map[string][]string{
+	"": {"Conn", "connDeadline", "Batch", "Writer", "partitionWriter", "writeBatch", "batchQueue", "writerStats",
+		"Reader", "reader", "readerStats", "Transport", "connPool", "connPoolState", "connGroup", "conn", "Client",
+		"RoundRobin", "LeastBytes", "leastBytesCounter", "Hash", "ReferenceHash", "randomBalancer",
+		"CRC32Balancer", "Murmur2Balancer", "summary"},
+	"/protocol":        {"pageBuffer", "page", "pageRef"},
+	"/compress/gzip":   {"Codec", "reader", "writer"},
+	"/compress/snappy": {"Codec", "reader", "writer", "xerialReader", "xerialWriter"},
+	"/compress/lz4":    {"Codec", "reader", "writer"},
+	"/compress/zstd":   {"Codec", "reader", "writer", "encoder"},
+}
+
+func main() {
+	repo := flag.String("repo", "/repo", "kafka-go checkout")
+	out := flag.String("out", "", "output .v file")
+	jsonOut := flag.String("json", "", "counts / facts as JSON")
+	selftest := flag.Bool("selftest", false, "run the embedded self-test")
+	flag.Parse()
+	if *selftest {
+		os.Exit(selfTest())
+	}
+	pkgs, err := load(*repo, []string{".", "./protocol", "./compress/..."}, "")
+	if err != nil {
+		fmt.Fprintln(os.Stderr, "vskel: load:", err)
+		os.Exit(1)
+	}
+	root := pkgs[0]
+	for _, p := range pkgs {
+		if len(p.PkgPath) < len(root.PkgPath) {
+			root = p
+		}
+	}
+	interest := map[*types.TypeName]string{}
+	var typesSeen []string
+	var fields, exported [][2]string
+	var missing []string
+	var sufs []string
+	for s := range interestTable {
+		sufs = append(sufs, s)
+	}
+	sort.Strings(sufs)
+	for _, suf := range sufs {
+		var pkg *packages.Package
+		for _, p := range pkgs {
+			if p.PkgPath == root.PkgPath+suf {
+				pkg = p
+			}
+		}
+		for _, tn := range interestTable[suf] {
+			if pkg == nil {
+				missing = append(missing, suf+"."+tn)
+				continue
+			}
+			obj, ok := pkg.Types.Scope().Lookup(tn).(*types.TypeName)
+			if !ok {
+				missing = append(missing, suf+"."+tn)
+				continue
+			}
+			disp := tn
+			if suf != "" {
+				disp = pkg.Name + "." + tn
+			}
+			interest[obj] = disp
+			typesSeen = append(typesSeen, disp)
+			if st, ok := obj.Type().Underlying().(*types.Struct); ok {
+				for i := 0; i < st.NumFields(); i++ {
+					fields = append(fields, [2]string{disp, st.Field(i).Name()})
+				}
+			}
+			ms := types.NewMethodSet(types.NewPointer(obj.Type()))
+			for i := 0; i < ms.Len(); i++ {
+				m := ms.At(i)
+				if m.Obj().Exported() && len(m.Index()) == 1 {
+					exported = append(exported, [2]string{disp, m.Obj().Name()})
+				}
+			}
+		}
+	}
+	a := run(pkgs, interest, false)
+	// written package-level variables are locations too
+	var gv []string
+	for v := range a.globalsW {
+		gv = append(gv, "$"+v.Pkg().Name()+"\x00"+v.Name())
+	}
+	sort.Strings(gv)
+	for _, g := range gv {
+		p := strings.SplitN(g, "\x00", 2)
+		fields = append(fields, [2]string{p[0], p[1]})
+	}
+	text, counts := a.emit(typesSeen, fields, exported)
+	counts["missing_types"] = len(missing)
+	if *out != "" {
+		if err := os.WriteFile(*out, []byte(text), 0o644); err != nil {
+			fmt.Fprintln(os.Stderr, err)
+			os.Exit(1)
+		}
+	} else {
+		fmt.Print(text)
+	}
+	if *jsonOut != "" {
+		b, _ := json.MarshalIndent(map[string]interface{}{"counts": counts, "missing": missing, "facts": a.outFacts()}, "", " ")
+		os.WriteFile(*jsonOut, b, 0o644)
+	}
+	cb, _ := json.Marshal(counts)
+	fmt.Fprintln(os.Stderr, string(cb))
+	if len(missing) > 0 {
+		fmt.Fprintln(os.Stderr, "vskel: listed types not found in the source:", missing)
 	}
 }
